@@ -51,6 +51,7 @@ static inline int bytering_push_nocheck(struct bytering_head *r,
 {
     *r->tail++ = c;
     __bytering_fixup(r, &r->tail);
+    return 0;
 }
 
 static inline int bytering_pop(struct bytering_head *r)
